@@ -482,7 +482,7 @@ def _execute(sc):
                     except ValueError:
                         probe("backwards_time_rejected")
                     except Exception as e:
-                        violate(k, "backwards_time", "time earlier than last accrual raised {!r} instead of ValueError".format(e), exc=type(e).__name__)
+                        violate(k, "backwards_time", "time earlier than last accrual raised {!r} instead of ValueError".format(e), exc=core.exc_name(e))
                     else:
                         violate(k, "backwards_time", "time {} earlier than the last accrual {} was accepted (returned {})".format(t_bad, last_accrual_t, r), exc="none")
                 if P.cash() != bal:
@@ -544,7 +544,7 @@ def _execute(sc):
         if site is None:
             raise
         violate(cur[0], "unexpected_exception", "op {} ({}) raised {!r} in {}".format(cur[0], sc["script"][cur[0]]["op"] if cur[0] < len(sc["script"]) else "end", e, site),
-                exc=type(e).__name__, site=site)
+                exc=core.exc_name(e), site=site)
     regime = ("neg" if cash0 < 0 else ("zero" if cash0 == 0 else "pos")) + ("floor" if sc["rate"] - sc["markup"] < 0 else "") + sc["setup"][0]
     return {"violations": violations, "digest": core.digest(log), "probes": probes, "faults": faults, "stats": stats,
             "trace": regime + ":" + "".join(trace), "nontrivial": stats["accruals"] >= 2 and len(probes) >= 1}
